@@ -21,6 +21,8 @@ var c12Alphabets = map[string][]rune{
 	"expression": []rune("a1'/*<= \n\r\U0001F600"),
 	"csv":        []rune("a,\"\n\r \U0001F600"),
 	"mustache":   []rune("a{}' \n\r\U0001F600#"),
+	"csv+latin1": []rune("a\u00a6\u00ab\n\r\U0001F600"),
+	"csv+wide":   []rune("a\u2192\u201d\n\r\U0001F600"),
 }
 
 var c12Operators = map[string]bool{"(": true, ")": true, "[": true, "]": true, "+": true, "-": true, "*": true, "/": true, "%": true, "^": true,
@@ -198,23 +200,51 @@ func init() {
 	fw.Register(&fw.Check{
 		ID:    "C12",
 		Level: "model_checking",
-		Rule: "4 tokenizers x every string up to the length bound over an alphabet with LF, CR, a quote, a comment opener, a multi-character symbol and an unknown character x option sets (quick: none, each single option, the parser's set, two combinations, all on; thorough: all 128); " +
+		Rule: "(also: 80 boundary characters in every short context and every pattern of <=2 characters repeated up to 1000 times) 4 tokenizers x every string up to the length bound over an alphabet with LF, CR, a quote, a comment opener, a multi-character symbol and an unknown character x option sets (quick: none, each single option, the parser's set, two combinations, all on; thorough: all 128); " +
 			"oracle: token k of the option-free stream sits at the forward-scan coordinates (independent rule model, cross-checked with a fresh real scanner) of offset sum(len(values before)); tokens under options are aligned with their originals through the C15 transformer and must carry the same position; Eof one column past the last character; " +
 			"positions quoted in expression syntax errors must be the position of a token, and for UNKNOWN_SYMBOL exactly the position of the first offending token; non-trivial = (multi-line input, option set) with >=3 tokens",
 		Assume: []string{"C04 and C15 hold for the (input, option set) (otherwise skipped and counted)", "coordinates as defined by C11's forward scan"},
 		Spaces: func(tier string) []fw.Space {
-			lens := map[string]int{"generic": 4, "expression": 4, "csv": 5, "mustache": 4}
+			lens := map[string]int{"generic": 4, "expression": 4, "csv": 5, "mustache": 4, "csv+latin1": 4, "csv+wide": 4}
 			if tier == "thorough" {
-				lens = map[string]int{"generic": 5, "expression": 5, "csv": 6, "mustache": 5}
+				lens = map[string]int{"generic": 5, "expression": 5, "csv": 6, "mustache": 5, "csv+latin1": 5, "csv+wide": 5}
 			}
 			sets := c12OptSets(tier)
 			sp := []fw.Space{}
-			for _, kind := range tokKinds {
+			for _, kind := range tokKindsExt {
 				kind := kind
 				al := c12Alphabets[kind]
 				sp = append(sp, fw.Space{Name: kind, N: countStrings(len(al), lens[kind]),
 					Run:  func(c *fw.Ctx, i int64) { c12Run(c, kind, stringByIndex(al, i), sets) },
 					Repr: func(i int64) string { return fmt.Sprintf("%s tokenizer, input %q, %d option sets", kind, stringByIndex(al, i), len(sets)) }})
+			}
+			ctxN := 1
+			counts := pumpCountsSmall
+			if tier == "thorough" {
+				ctxN = 2
+				counts = pumpCounts
+			}
+			for _, kind := range tokKinds {
+				kind := kind
+				ca := tokContextAlphabets[kind]
+				nctx := contextsCount(ca, ctxN)
+				sp = append(sp, fw.Space{Name: "charsweep-" + kind, N: nctx * int64(len(boundaryChars)),
+					Run: func(c *fw.Ctx, i int64) {
+						pre, suf := contextByIndex(ca, ctxN, i%nctx)
+						c12Run(c, kind, pre+string(boundaryChars[i/nctx])+suf, sets)
+					},
+					Repr: func(i int64) string {
+						pre, suf := contextByIndex(ca, ctxN, i%nctx)
+						return fmt.Sprintf("%s tokenizer, input %q, %d option sets", kind, pre+string(boundaryChars[i/nctx])+suf, len(sets))
+					}})
+				npat := countStrings(len(ca), 2) - 1
+				sp = append(sp, fw.Space{Name: "pumped-" + kind, N: npat * int64(len(counts)),
+					Run: func(c *fw.Ctx, i int64) {
+						c12Run(c, kind, pumped(stringByIndex(ca, 1+i%npat), counts[i/npat]), sets)
+					},
+					Repr: func(i int64) string {
+						return fmt.Sprintf("%s tokenizer, input %q repeated %d times, %d option sets", kind, stringByIndex(ca, 1+i%npat), counts[i/npat], len(sets))
+					}})
 			}
 			return sp
 		},
